@@ -13,6 +13,12 @@
 #include "uscxml/transform/ChartToPromela.h"
 #include "uscxml/transform/ChartToVHDL.h"
 #include "uscxml/plugins/Factory.h"
+#include "uscxml/interpreter/InterpreterImpl.h"
+#include "uscxml/util/DOM.h"
+#include <algorithm>
+#include <list>
+#include <set>
+#include <vector>
 #include <fstream>
 #include <iostream>
 #include <sstream>
@@ -103,17 +109,48 @@ int main(int argc, char** argv) {
 		bool nofatal = (v == "ok" && issues.find("\"fatal\":0,") == 0);
 
 		std::string dummy;
+		std::string cfgs;      // the configurations the run went through: json lists of state ids ("#root" for <scxml>)
 		std::string run = "skipped", c = "skipped", pml = "skipped", vhdl = "skipped";
 		if (nofatal) {
-			run = inChild([&](std::string&) -> int {
+			run = inChild([&](std::string& o) -> int {
 				try {
-					Interpreter interp = Interpreter::fromXML(scxml, url);
+					// never destroyed: tear-down is not this check's subject (the child _exit()s)
+					Interpreter& interp = *(new Interpreter(Interpreter::fromXML(scxml, url)));
 					if (!interp) return 8;
-					for (int i = 0; i < 50; i++) if (interp.step(0) == USCXML_FINISHED) break;
-					_exit(0);
+					// events the document reacts to, in document order
+					std::vector<std::string> events;
+					for (auto t : DOMUtils::inDocumentOrder({"transition"}, interp.getImpl()->getDocument()->getDocumentElement())) {
+						if (!HAS_ATTR(t, X("event"))) continue;
+						std::string d = ATTR(t, X("event"));
+						d = d.substr(0, d.find(' '));
+						while (d.size() && (d.back() == '*' || d.back() == '.')) d.pop_back();
+						if (d.size() && std::find(events.begin(), events.end(), d) == events.end() && events.size() < 6) events.push_back(d);
+					}
+					std::set<std::string> seen;
+					size_t next = 0;
+					int n = 0;
+					for (int i = 0; i < 120; i++) {
+						InterpreterState st = interp.step(0);
+						if (st != USCXML_INITIALIZED && st != USCXML_INSTANTIATED) {
+							std::string cfg = "[";
+							bool first = true;
+							for (auto e : interp.getConfiguration()) {
+								cfg += std::string(first ? "" : ",") + "\"" + (HAS_ATTR(e, X("id")) ? jesc(ATTR(e, X("id"))) : std::string(LOCALNAME(e) == "scxml" ? "#root" : "#anon")) + "\"";
+								first = false;
+							}
+							cfg += "]";
+							if (seen.insert(cfg).second && n < 24) { o += std::string(n ? "," : "") + cfg; n++; }
+						}
+						if (st == USCXML_FINISHED) break;
+						if (st == USCXML_IDLE) {
+							if (next >= events.size()) break;
+							interp.receive(Event(events[next++], Event::EXTERNAL));
+						}
+					}
+					return 0;
 				} catch (...) { return 7; }
 				return 0;
-			}, dummy);
+			}, cfgs);
 			const char* bes[] = {"c", "pml", "vhdl"};
 			std::string* res[] = {&c, &pml, &vhdl};
 			for (int b = 0; b < 3; b++) {
@@ -134,8 +171,8 @@ int main(int argc, char** argv) {
 				}, dummy);
 			}
 		}
-		fprintf(out, "{\"k\":\"doc\",\"name\":\"%s\",%s,\"validate\":\"%s\",\"run\":\"%s\",\"c\":\"%s\",\"pml\":\"%s\",\"vhdl\":\"%s\"}\n",
-		        name.c_str(), issues.c_str(), v.c_str(), run.c_str(), c.c_str(), pml.c_str(), vhdl.c_str());
+		fprintf(out, "{\"k\":\"doc\",\"name\":\"%s\",%s,\"validate\":\"%s\",\"run\":\"%s\",\"cfgs\":[%s],\"c\":\"%s\",\"pml\":\"%s\",\"vhdl\":\"%s\"}\n",
+		        name.c_str(), issues.c_str(), v.c_str(), run.c_str(), run == "ok" ? cfgs.c_str() : "", c.c_str(), pml.c_str(), vhdl.c_str());
 		fflush(out);
 	}
 	fclose(out);
